@@ -21,6 +21,10 @@ import (
 	"golang.org/x/tools/go/ssa"
 )
 
+// currentPropID is the property being checked ("" under `govc debug`): property-scoped `stop [Cnn]` cuts apply
+// only to their own property.
+var currentPropID string
+
 // ---------------------------------------------------------------------------
 // fmt verbs and path.Join
 
@@ -483,4 +487,33 @@ func (e *Engine) RunLemma(tag string) (err error) {
 		Desc: "lemma hypothesis satisfiable", PathID: s.id, ExpectSat: true, U: e.u}
 	e.obligations = append(e.obligations, oc)
 	return nil
+}
+
+// ---------------------------------------------------------------------------
+// go_inline: fork/join of goroutines that the spawning function joins before it returns
+
+// goInline executes `go closure()` at the spawn point when the spawning function's contract carries the flag
+// go_inline. This is the sequential reading of a fork/join region: it is faithful when the spawned bodies write
+// pairwise disjoint locations that the spawner does not touch before the join (sync.WaitGroup.Wait), which is
+// an assumption listed in the evidence (the data-race freedom of such regions is property C41's subject).
+func (e *Engine) goInline(s *State, fr *Frame, x *ssa.Go) ([]*State, bool, bool) {
+	cc := x.Common()
+	if cc.IsInvoke() {
+		return nil, false, false
+	}
+	var args []Value
+	for _, a := range cc.Args {
+		args = append(args, s.get(fr, a))
+	}
+	e.abstract(fmt.Sprintf("go_inline: goroutine spawned at %s runs to completion at the spawn point (fork/join region read sequentially; interleavings with the spawner and with sibling goroutines are not modelled)", posString(e.fset, x.Pos())))
+	anchor := fmt.Sprintf("%s#%d", calleeShortName(cc), e.callOrdinal(x))
+	switch fv := s.get(fr, cc.Value).(type) {
+	case *Closure:
+		succ, done := e.callFunction(s, fr, nil, fv.Fn, args, fv.Bindings, x, anchor, cc)
+		return succ, done, true
+	case *FuncRef:
+		succ, done := e.callFunction(s, fr, nil, fv.Fn, args, nil, x, anchor, cc)
+		return succ, done, true
+	}
+	return nil, false, false
 }
